@@ -193,7 +193,17 @@ func c11Check(c C11Case) *pbt.Violation {
 			if err := dst.Fix(b); err != nil {
 				return pbt.V("c11.wire.fix", "wire round trip followed by Fix", "%s: Fix(%d) after reading %d longs for n=%d: %v", step, b, len(longs), n, err)
 			}
-			bs = dst
+			if op.V%5 == 3 {
+				// keep working on the storage that was written out (it will be written again later); the
+				// received copy must equal the model now
+				for i := 0; i < n; i++ {
+					if got := dst.Get(i); uint64(got) != model[i] {
+						return pbt.V("c11.wire.value", "the raw longs survive the wire round-trip followed by Fix", "%s: received Get(%d)=%d, model %d (bits %d n %d)", step, i, got, model[i], b, n)
+					}
+				}
+			} else {
+				bs = dst
+			}
 		case "wronglen":
 			if b == 0 {
 				continue
